@@ -299,6 +299,34 @@ func c11R2(c *Ctx, r *Report) {
 					}
 					return true
 				})
+				if ctor == "" {
+					// the arm only picks the constructor (newHash = sha1.New) and one hmac.New(newHash, secret) follows
+					// the switch
+					for _, st := range cc.Body {
+						as, ok := st.(*ast.AssignStmt)
+						if !ok || len(as.Lhs) != 1 || len(as.Rhs) != 1 {
+							continue
+						}
+						id, isId := as.Lhs[0].(*ast.Ident)
+						if !isId {
+							continue
+						}
+						obj := c.Info.Uses[id]
+						if obj == nil {
+							obj = c.Info.Defs[id]
+						}
+						fed := false
+						ast.Inspect(fd.Body, func(n ast.Node) bool {
+							if call, ok := n.(*ast.CallExpr); ok && c.calleeName(call) == "hmac.New" && len(call.Args) == 2 && c.isIdentOf(call.Args[0], obj) {
+								fed = true
+							}
+							return true
+						})
+						if fed && obj != nil {
+							ctor = types.ExprString(as.Rhs[0])
+						}
+					}
+				}
 				if cc.List == nil {
 					okDef := false
 					ast.Inspect(cc, func(n ast.Node) bool {
